@@ -98,19 +98,25 @@ def c_ubyte(c):
     return c
 
 
+class ContractBreach(Inconclusive):
+    """the Python layer handed the native code a length that overruns a buffer it passed (the C would read or
+    write out of bounds).  Subclass of Inconclusive (a BaseException, so library code cannot swallow it): harnesses
+    that examine wrapper guards catch it and report a violation; elsewhere it stays an inconclusive result"""
+
+
 def rd(buf, n, off=0):
     """read n byte elements from a caller buffer"""
     e = to_elems(buf)
     n = operator.index(n)
     if off + n > len(e):
-        raise Inconclusive("native model: read of %d bytes beyond a %d-byte buffer" % (off + n, len(e)))
+        raise ContractBreach("native model: read of %d bytes beyond a %d-byte buffer" % (off + n, len(e)))
     return e[off:off + n]
 
 
 def wr(buf, elems, off=0):
     if isinstance(buf, SymByteArray):
         if off + len(elems) > len(buf.b):
-            raise Inconclusive("native model: write beyond buffer")
+            raise ContractBreach("native model: write of %d bytes beyond a %d-byte buffer" % (off + len(elems), len(buf.b)))
         buf.b[off:off + len(elems)] = elems
         buf.inj = None
         return
@@ -118,7 +124,7 @@ def wr(buf, elems, off=0):
         if buf.readonly:
             raise Inconclusive("native model: write to read-only view")
         if off + len(elems) > buf.n:
-            raise Inconclusive("native model: write beyond buffer")
+            raise ContractBreach("native model: write of %d bytes beyond a %d-byte view" % (off + len(elems), buf.n))
         buf.base.b[buf.off + off:buf.off + off + len(elems)] = elems
         return
     if isinstance(buf, SymBytes):
